@@ -40,6 +40,12 @@ type SampleBuilder struct {
 
 	lastSampleTimestamp *uint32
 
+	// consumedTail is one after the last sequence number that was built into a
+	// sample or given up on; packets before it are stale. Only meaningful once
+	// hasConsumed is set.
+	consumedTail uint16
+	hasConsumed  bool
+
 	// number of packets forced to be dropped
 	droppedPackets uint16
 
@@ -133,20 +139,23 @@ func (s *SampleBuilder) purgeConsumedBuffers() {
 // purgeConsumedLocation clears all buffers that have already been consumed
 // during a sample building method.
 func (s *SampleBuilder) purgeConsumedLocation(consume sampleSequenceLocation, forceConsume bool) {
-	if !s.filled.hasData() {
-		return
-	}
-
-	switch consume.compare(s.filled.head) {
-	case slCompareInside:
-		if !forceConsume {
-			break
+	// release every consumed packet, not just the first one: anything left
+	// behind would be found again once active is refilled from filled
+	for s.filled.hasData() {
+		where := consume.compare(s.filled.head)
+		if where != slCompareBefore && (where != slCompareInside || !forceConsume) {
+			return
 		}
 
-		fallthrough
-	case slCompareBefore:
 		s.releasePacket(s.filled.head)
 		s.filled.head++
+	}
+}
+
+// markConsumed records that everything before tail has been dealt with.
+func (s *SampleBuilder) markConsumed(tail uint16) {
+	if !s.hasConsumed || int16(tail-s.consumedTail) > 0 { //nolint:gosec // G115
+		s.consumedTail, s.hasConsumed = tail, true
 	}
 }
 
@@ -168,6 +177,11 @@ func (s *SampleBuilder) purgeBuffers(flush bool) {
 				continue
 			}
 
+			if !s.filled.hasData() {
+				// buildSample dropped everything that was left
+				break
+			}
+
 			// could not build the sample so drop it
 			s.active.head++
 			s.droppedPackets++
@@ -175,6 +189,7 @@ func (s *SampleBuilder) purgeBuffers(flush bool) {
 
 		s.releasePacket(s.filled.head)
 		s.filled.head++
+		s.markConsumed(s.filled.head)
 	}
 }
 
@@ -183,6 +198,16 @@ func (s *SampleBuilder) purgeBuffers(flush bool) {
 // Push does not copy the input. If you wish to reuse
 // this memory make sure to copy before calling Push.
 func (s *SampleBuilder) Push(packet *rtp.Packet) {
+	// a late or duplicated packet from before the point we have consumed up
+	// to must not restart the builder there
+	if s.hasConsumed && int16(packet.SequenceNumber-s.consumedTail) < 0 { //nolint:gosec // G115
+		if s.packetReleaseHandler != nil {
+			s.packetReleaseHandler(packet)
+		}
+
+		return
+	}
+
 	s.buffer[packet.SequenceNumber] = packet
 
 	switch s.filled.compare(packet.SequenceNumber) {
@@ -267,6 +292,7 @@ func (s *SampleBuilder) buildSample(purgingBuffers bool) *media.Sample {
 
 	// the head set of packets is now fully consumed
 	s.active.head = consume.tail
+	s.markConsumed(consume.tail)
 
 	// prior to decoding all the packets, check if this packet
 	// would end being disposed anyway
